@@ -503,3 +503,17 @@ func VH_C11_receive_buffer_holds_the_largest_transport_message() {
 	m.receiver()
 	check()
 }
+
+// C08: the quarantine of a closed tube's identifier falls on the side that
+// OPENED it (the one that would reuse it): freed too early, the peer's old tube
+// - still waiting for its last acknowledgement - answers the new tube's frames
+// with the old stream's numbers and the new stream can never be delivered.
+//
+//verif:prop C08
+//verif:replay none
+//verif:stub (*hop.computer/hop/tubes.Reliable).WaitForClose = c09WaitForClose
+//verif:bounds as VH_C09_closed_tube_id_is_reserved_by_its_opener
+//verif:cover reserved;freed
+func VH_C08_closed_tube_identifier_is_quarantined_by_its_opener() {
+	VH_C09_closed_tube_id_is_reserved_by_its_opener()
+}
